@@ -6,6 +6,7 @@ import Marwood.Lemmas.PreludeInterpMap
 import Marwood.Lemmas.PreludeLength
 import Marwood.Lemmas.TotalLength
 import Marwood.Lemmas.EqualAgree
+import Marwood.Lemmas.EqualViewMain
 /-!
 # C14 — list and vector procedures match their specification and preserve identity
 
@@ -1002,5 +1003,171 @@ example : equalB 10 exStore [.ptr 7, .ptr 4] = .ok (exStore, .bool false) :=
   equalB_agrees_pinned (n := 4) rfl (by decide)
 example : equalB 10 exStore [.ptr 5, .ptr 5] = .ok (exStore, .bool true) :=
   equalB_agrees_pinned (n := 1) rfl (by decide)
+
+/-! ### `equal?` is structural equality of the abstract tree views (R7RS 6.1)
+
+`View s v t` (`Spec/StoreTree.lean`): the value `v` unfolds in the store `s` into the address-free tree `t` — pairs
+into `.pair`, vectors into `.vec`, strings into their characters, the scalars C14 quantifies over (booleans,
+characters, `()`, exact integers, symbols by name) into leaves. It is an inductive relation, so it is defined
+exactly on acyclic data (sharing allowed). `Tree.equiv` is `equal?` of R7RS on trees: the same shape, strings
+with the same characters, leaves `eqv?`. No well-formedness hypothesis is needed: a view of both arguments
+already says that everything the comparison reads is there. -/
+
+/-- the view of a value is unique -/
+theorem view_unique {s : Store} {v : VCell} {t t' : Tree} (h : View s v t) (h' : View s v t') : t = t' :=
+  View.det t h h'
+
+/-- the leaf relation of `Tree.equiv` **is** the model's `eqv?` on two scalar cells … -/
+theorem leaf_eqv_is_eqvCells (s : Store) (a b : Atom) : eqvCells s a.toCell b.toCell = .ok (Atom.eqv a b) :=
+  eqvCells_atom s a b
+
+/-- … and for the kinds C14 quantifies over (symbols, booleans, `()`, characters, exact integers) it is
+    equality of the scalar -/
+theorem leaf_eqv_iff (a b : Atom) : Atom.eqv a b = true ↔ a = b := Atom.eqv_iff a b
+
+/-- `equal?` on trees (same shape, strings by content, leaves `eqv?`) is equality of trees -/
+theorem tree_equiv_iff (t u : Tree) : Tree.equiv t u = true ↔ t = u := Tree.equiv_iff t u
+
+/-- **`equal?` returns what R7RS specifies**, R7RS form: on two values with views `tl`, `tr` the answer is
+    `equal?` of the trees; `2 * size` of the left view is enough fuel -/
+theorem equal_same_view_equiv {s : Store} {l r : VCell} {tl tr : Tree} (hl : View s l tl) (hr : View s r tr)
+    {fuel : Nat} (hf : 2 * tl.size ≤ fuel) : equal fuel s l r = .ok (tl.equiv tr) :=
+  equal_view hl hr hf
+
+/-- **`equal?` is structural equality of the abstract views**: `#t` iff the two values unfold into the same tree -/
+theorem equal_iff_same_view {s : Store} {l r : VCell} {tl tr : Tree} (hl : View s l tl) (hr : View s r tr)
+    {fuel : Nat} (hf : 2 * tl.size ≤ fuel) : equal fuel s l r = .ok (decide (tl = tr)) := by
+  rw [equal_view hl hr hf, Tree.equiv_eq_decide]
+
+/-- the same with the fuel that depends on the store only (`equalFuel s = |cells|² · (maxVecLen + 5) + 1`, the
+    bound of `equal_total`), on a store of the shape of a real heap and two values: a DAG with sharing unfolds
+    into a tree that may be exponentially larger than the store, the fuel (a nesting depth) does not follow it -/
+theorem equal_iff_same_view_total {s : Store} (hsh : s.Shaped) {l r : VCell} {tl tr : Tree}
+    (hlv : l.isValue = true) (hrv : r.isValue = true) (hl : View s l tl) (hr : View s r tr) {fuel : Nat}
+    (hf : equalFuel s ≤ fuel) : equal fuel s l r = .ok (decide (tl = tr)) := by
+  rw [equal_view_total hsh hlv hrv hl hr hf, Tree.equiv_eq_decide]
+
+/-- the builtin (`(equal? a b)` compares `left = b`, `right = a`) -/
+theorem equalB_iff_same_view {s : Store} {a b : VCell} {ta tb : Tree} (ha : View s a ta) (hb : View s b tb)
+    {fuel : Nat} (hf : 2 * tb.size ≤ fuel) : equalB fuel s [a, b] = .ok (s, .bool (decide (tb = ta))) := by
+  simp only [equalB, equal_iff_same_view hb ha hf, bind_ok]
+
+/-- a view exists only of acyclic data: the pinned `equal?` (no visited set) returns on it too, with the same
+    answer — the repair changed nothing there -/
+theorem pinned_equal_iff_same_view {s : Store} {l r : VCell} {tl tr : Tree} (hl : View s l tl) (hr : View s r tr)
+    {fuel : Nat} (hf : 2 * tl.size ≤ fuel) : Pinned.equal fuel s l r = .ok (decide (tl = tr)) := by
+  rw [(pinned_view s fuel).1 l r tl tr hl hr hf, Tree.equiv_eq_decide]
+
+/-- **`member`** (`(member obj l)`: the prelude's `memq` text with `equal?`, run with the same fuel) on a list
+    whose elements have the views `tv a`: the first sublist whose car unfolds into the same tree as `obj`; `#f`
+    when no element does and the list is proper (an error when it is not) -/
+theorem member_view {s : Store} {obj v c : VCell} {as : List Nat} {tk : Tree} {tv : Nat → Tree}
+    (hl : Spine s v as c) (hk : View s obj tk) (hv : ∀ a ∈ as, View s (.ptr a) (tv a)) :
+    ∀ fuel, as.length < fuel → 2 * tk.size ≤ fuel →
+    (∃ k, ∃ h : k < as.length, tv as[k] = tk ∧ (∀ j (hj : j < k), tv (as[j]'(by omega)) ≠ tk) ∧
+        ∃ r, member fuel s obj v = .ok r ∧ NthCdr s v k r) ∨
+    ((∀ a ∈ as, tv a ≠ tk) ∧
+      ((c = .nil ∧ member fuel s obj v = .ok (.bool false)) ∨
+       (c ≠ .nil ∧ ∃ e, member fuel s obj v = .err e))) := by
+  intro fuel h1 h2
+  have hne : ∀ t, tk.equiv t = false → t ≠ tk := by
+    intro t h e; rw [e, Tree.equiv_refl] at h; cases h
+  have ht : ∀ a ∈ as, equalTest fuel s (.ptr a) obj = .ok ((fun a => tk.equiv (tv a)) a) :=
+    fun a ha => equal_view hk (hv a ha) h2
+  rcases mem_spec (test := equalTest fuel) (p := fun a => tk.equiv (tv a)) hl ht fuel h1 with
+    ⟨k, hk', e1, e2, r, e3, e4⟩ | ⟨e1, e2⟩
+  · exact .inl ⟨k, hk', ((Tree.equiv_iff _ _).mp e1).symm, fun j hj => hne _ (e2 j hj), r, e3, e4⟩
+  · exact .inr ⟨fun a ha => hne _ (e1 a ha), e2⟩
+
+/-- **`assoc`** on an association list whose entries have the keys `kv a` (`EntryKey`: the view of the car of
+    an entry that is a pair, `none` for an entry that is not — skipped): the first entry — the entry itself, not
+    a copy — whose key unfolds into the same tree as `obj`; `#f` when there is none and the list is proper -/
+theorem assoc_view {s : Store} {obj v c : VCell} {as : List Nat} {tk : Tree} {kv : Nat → Option Tree}
+    (hl : Spine s v as c) (hk : View s obj tk) (hv : ∀ a ∈ as, EntryKey s a (kv a)) :
+    ∀ fuel, as.length < fuel → 2 * tk.size ≤ fuel →
+    (∃ k, ∃ h : k < as.length, kv as[k] = some tk ∧ (∀ j (hj : j < k), kv (as[j]'(by omega)) ≠ some tk) ∧
+        assoc fuel s obj v = .ok (.ptr as[k])) ∨
+    ((∀ a ∈ as, kv a ≠ some tk) ∧
+      ((c = .nil ∧ assoc fuel s obj v = .ok (.bool false)) ∨
+       (c ≠ .nil ∧ ∃ e, assoc fuel s obj v = .err e))) := by
+  intro fuel h1 h2
+  let p : Nat → Bool := fun a => match kv a with | some t => tk.equiv t | none => false
+  have hp_true : ∀ a, p a = true → kv a = some tk := by
+    intro a h
+    simp only [p] at h
+    cases hk' : kv a with
+    | none => rw [hk'] at h; cases h
+    | some t => rw [hk'] at h; rw [(Tree.equiv_iff _ _).mp h]
+  have hp_false : ∀ a, p a = false → kv a ≠ some tk := by
+    intro a h e
+    simp only [p, e, Tree.equiv_refl] at h
+    cases h
+  have ht : ∀ a ∈ as, EntryTest s (equalTest fuel) obj p a := by
+    intro a ha
+    cases hka : kv a with
+    | none =>
+      have he := hv a ha
+      rw [hka] at he
+      cases he with
+      | skip hc hnp =>
+        rename_i c0
+        refine ⟨c0, hc, ?_⟩
+        have : p a = false := by simp only [p, hka]
+        cases c0 <;> first | exact this | simp [VCell.isPair] at hnp
+    | some t =>
+      have he := hv a ha
+      rw [hka] at he
+      cases he with
+      | pair hc hview =>
+        refine ⟨_, hc, ?_⟩
+        have : p a = tk.equiv t := by simp only [p, hka]
+        simp only [this]
+        exact equal_view hk hview h2
+  rcases ass_spec (test := equalTest fuel) (p := p) hl ht fuel h1 with ⟨k, hk', e1, e2, e3⟩ | ⟨e1, e2⟩
+  · exact .inl ⟨k, hk', hp_true _ e1, fun j hj => hp_false _ (e2 j hj), e3⟩
+  · exact .inr ⟨fun a ha => hp_false _ (e1 a ha), e2⟩
+
+/-! #### the hypotheses are satisfiable: one datum built two ways
+
+`(1 #(2 "ab") x)` twice in one store: `ptr 8` with every vector slot a reference to a boxed scalar, `ptr 15` with
+an immediate in slot 0, another string object with the same characters, other pairs (the symbol `x` is interned:
+one cell); `ptr 18` is `(1 #(2) x)`. -/
+
+def exTreeStore : Store :=
+  { cells := [.num 1, .num 2, .str 0, .vec 0, .sym ['x'], .nil, .pair 4 5, .pair 3 6, .pair 0 7,
+      .num 1, .str 1, .vec 1, .nil, .pair 4 12, .pair 11 13, .pair 9 14,
+      .vec 2, .pair 16 13, .pair 9 17],
+    vecs := [[.ptr 1, .ptr 2], [.num 2, .ptr 10], [.num 2]],
+    strs := [['a', 'b'], ['a', 'b']] }
+
+def exTail : Tree := .pair (.leaf (.sym ['x'])) (.leaf .nil)
+def exTree : Tree := .pair (.leaf (.num 1)) (.pair (.vec [.leaf (.num 2), .str ['a', 'b']]) exTail)
+def exTree' : Tree := .pair (.leaf (.num 1)) (.pair (.vec [.leaf (.num 2)]) exTail)
+
+theorem ex_view1 : View exTreeStore (.ptr 8) exTree :=
+  .pair rfl (.atom (a := .num 1) rfl)
+    (.pair rfl (.vec rfl rfl (.cons (.atom (a := .num 2) rfl) (.cons (.str rfl rfl) .nil)))
+      (.pair rfl (.atom (a := .sym ['x']) rfl) (.atom (a := .nil) rfl)))
+
+theorem ex_view2 : View exTreeStore (.ptr 15) exTree :=
+  .pair rfl (.atom (a := .num 1) rfl)
+    (.pair rfl (.vec rfl rfl (.cons (.atom (a := .num 2) rfl) (.cons (.str rfl rfl) .nil)))
+      (.pair rfl (.atom (a := .sym ['x']) rfl) (.atom (a := .nil) rfl)))
+
+theorem ex_view3 : View exTreeStore (.ptr 18) exTree' :=
+  .pair rfl (.atom (a := .num 1) rfl)
+    (.pair rfl (.vec rfl rfl (.cons (.atom (a := .num 2) rfl) .nil))
+      (.pair rfl (.atom (a := .sym ['x']) rfl) (.atom (a := .nil) rfl)))
+
+theorem exTree_size : 2 * exTree.size = 22 := by simp [exTree, exTail, Tree.size, Tree.sizeAll]
+
+/-- built two ways, `equal?`; against the shorter vector, not -/
+example : equal 22 exTreeStore (.ptr 8) (.ptr 15) = .ok true := by
+  rw [equal_iff_same_view ex_view1 ex_view2 (by rw [exTree_size]; exact Nat.le_refl _)]; simp
+example : equal 22 exTreeStore (.ptr 8) (.ptr 18) = .ok false := by
+  rw [equal_same_view_equiv ex_view1 ex_view3 (by rw [exTree_size]; exact Nat.le_refl _)]
+  simp [exTree, exTree', Tree.equiv, Tree.equivAll, Atom.eqv]
+example := equalB_iff_same_view (fuel := 22) ex_view2 ex_view1 (by rw [exTree_size]; exact Nat.le_refl _)
+example := view_unique ex_view1 ex_view1
 
 end Marwood.Proofs.C14
